@@ -90,6 +90,7 @@ type ImplContract struct {
 	MParams map[string][]string // parameter names of method models
 	ObjInv  []Clause
 	Opts    map[string]string
+	Props   []string
 }
 
 type InstanceCheck struct {
@@ -216,7 +217,7 @@ func ParseContractFile(path string) (*ContractFile, error) {
 			if len(f) != 3 || f[1] != "implements" {
 				return nil, fmt.Errorf("%s:%d: expected `type T implements I`", path, n)
 			}
-			impl = &ImplContract{Type: f[0], Iface: f[2], Models: map[string]Clause{}, MParams: map[string][]string{}, Opts: map[string]string{}}
+			impl = &ImplContract{Type: f[0], Iface: f[2], Models: map[string]Clause{}, MParams: map[string][]string{}, Opts: map[string]string{}, Props: fileProps}
 			cf.Impls[f[0]+"/"+f[2]] = impl
 			top, cur, iface = nil, nil, nil
 		case "model":
